@@ -237,19 +237,24 @@ func (x *Ctx) tierGuards(r *core.Result, rs *core.RuleStat) {
 		return
 	}
 	var rf, slowSet, slowBits *ssa.Call
-	for _, b := range fn.Blocks {
-		for _, ins := range b.Instrs {
-			c, ok := ins.(*ssa.Call)
-			if !ok || c.Call.StaticCallee() == nil {
-				continue
-			}
-			switch c.Call.StaticCallee().Name() {
-			case "readFloat":
-				rf = c
-			case "set":
-				slowSet = c
-			case "floatBits":
-				slowBits = c
+	for _, g := range x.helperClosure(fn) {
+		// the decimal fallback may sit in a private helper (slowParse(data[:n]))
+		for _, b := range g.Blocks {
+			for _, ins := range b.Instrs {
+				c, ok := ins.(*ssa.Call)
+				if !ok || c.Call.StaticCallee() == nil {
+					continue
+				}
+				switch c.Call.StaticCallee().Name() {
+				case "readFloat":
+					if g == fn {
+						rf = c
+					}
+				case "set":
+					slowSet = c
+				case "floatBits":
+					slowBits = c
+				}
 			}
 		}
 	}
@@ -282,6 +287,7 @@ func (x *Ctx) tierGuards(r *core.Result, rs *core.RuleStat) {
 			if !isNilConst(rc.vals[2]) && (x.knownNonNilError(rc.vals[2]) || x.dominatedByNonNil(rc.at, rc.vals[2])) {
 				continue // an error return; every other return may be a success
 			}
+			tj.curErr = rc.vals[2]
 			tj.judge(fn, roles, rc.vals[0], rc.at, nil, ret.Pos(), 0)
 			check("offset", rc.vals[1] == ssa.Value(n) || (isZeroConst(rc.vals[1]) && isZeroConst(rc.vals[0])), ret.Pos(), "a successful return does not carry readFloat's offset")
 		}
@@ -290,7 +296,23 @@ func (x *Ctx) tierGuards(r *core.Result, rs *core.RuleStat) {
 		r.Undecided(rs, "ParseJSONFloatPrefix:tiers", w.Pos(fn.Pos()), fmt.Sprintf("expected the exact-arithmetic and Eisel-Lemire tiers to produce results; found %d / %d guarded returns", tj.nExact, tj.nEisel))
 	}
 	// the slow path converts data[:n]
-	if sl, ok := slowSet.Call.Args[1].(*ssa.Slice); !ok || sl.High != ssa.Value(n) || sl.Low != nil {
+	slowArg := slowSet.Call.Args[1]
+	if par, isPar := slowArg.(*ssa.Parameter); isPar && par.Parent() != fn {
+		// handed down by the caller: every call of the helper from ParseJSONFloatPrefix must pass data[:n]
+		slowArg = nil
+		for _, b := range fn.Blocks {
+			for _, ins := range b.Instrs {
+				if c, ok := ins.(*ssa.Call); ok && c.Call.StaticCallee() == par.Parent() {
+					for i, p := range par.Parent().Params {
+						if p == par && i < len(c.Call.Args) {
+							slowArg = c.Call.Args[i]
+						}
+					}
+				}
+			}
+		}
+	}
+	if sl, ok := slowArg.(*ssa.Slice); !ok || sl.X != ssa.Value(fn.Params[0]) || sl.High != ssa.Value(n) || sl.Low != nil {
 		check("slow-input", false, slowSet.Pos(), "the decimal fallback does not re-read exactly the literal data[:n]")
 	} else {
 		check("slow-input", true, slowSet.Pos(), "")
@@ -320,6 +342,7 @@ type tierJudge struct {
 	slowBits       *ssa.Call
 	nExact, nEisel int
 	argsDone       map[*ssa.Function]bool
+	curErr         ssa.Value // the error returned together with the value being judged (top level)
 }
 
 // tierCalls: the atof64exact / eiselLemire64 calls of fn; eiselLemire64 calls split into those on the mantissa
@@ -420,6 +443,33 @@ func (t *tierJudge) judge(fn *ssa.Function, ro fpRoles, v ssa.Value, at *ssa.Bas
 			}
 			// a (value, ok) helper that was handed readFloat's results
 			h := c.Call.StaticCallee()
+			if h != nil && x.W.InLib(h) && len(h.Blocks) > 0 && h.Signature.Results().Len() == 2 && depth < 2 && isErrT(h.Signature.Results().At(1).Type()) {
+				// a (value, error) helper: its value counts only when its error is nil — the caller must return that
+				// very error with it (or have tested it)
+				e1 := extractOf(c, 1)
+				if e1 == nil || !(depth == 0 && t.curErr == ssa.Value(e1)) {
+					t.check("helper-err", false, pos, "the value of "+h.Name()+" is returned without its error")
+					return
+				}
+				n := 0
+				for _, b := range h.Blocks {
+					ret, ok := b.Instrs[len(b.Instrs)-1].(*ssa.Return)
+					if !ok {
+						continue
+					}
+					for _, rc := range splitReturn(ret) {
+						if x.knownNonNilError(rc.vals[1]) || x.dominatedByNonNil(rc.at, rc.vals[1]) {
+							continue
+						}
+						n++
+						t.judge(h, fpRoles{}, rc.vals[0], rc.at, nil, ret.Pos(), depth+1)
+					}
+				}
+				if n == 0 {
+					t.check("helper-returns", false, pos, h.Name()+" has no successful return to judge")
+				}
+				return
+			}
 			if h != nil && x.W.InLib(h) && len(h.Blocks) > 0 && h.Signature.Results().Len() == 2 && depth < 2 {
 				if !isTrue(extractOf(c, 1)) {
 					t.check("helper-ok", false, pos, "the result of "+h.Name()+" is returned without its ok result having been tested")
@@ -643,46 +693,79 @@ func (x *Ctx) mantissaDigits(r *core.Result, rs *core.RuleStat) {
 		r.Undecided(rs, "readFloat", "-", "function not found")
 		return
 	}
-	// find `ndMant >= K` whose true branch sets trunc: the accumulate branch is the other one
+	// the block that multiplies the uint64 mantissa by 10, and the count guard on the edge that leads to it
 	found := false
-	for _, b := range fn.Blocks {
-		iff, ok := b.Instrs[len(b.Instrs)-1].(*ssa.If)
-		if !ok {
-			continue
-		}
-		be, ok := iff.Cond.(*ssa.BinOp)
-		if !ok || (be.Op != token.GEQ && be.Op != token.GTR) {
-			continue
-		}
-		k, okc := constBig(be.Y)
-		if !okc || !isIntT(be.X.Type()) {
-			continue
-		}
-		// the false successor multiplies a uint64 by 10
+	for _, mb := range fn.Blocks {
 		mul := false
-		for _, ins := range b.Succs[1].Instrs {
+		for _, ins := range mb.Instrs {
 			if m, ok := ins.(*ssa.BinOp); ok && m.Op == token.MUL {
-				if t, ok := constBig(m.Y); ok && t.Int64() == 10 {
-					mul = true
+				if bt, isB := m.Type().Underlying().(*types.Basic); isB && bt.Kind() == types.Uint64 {
+					if t, ok := constBig(m.Y); ok && t.Int64() == 10 {
+						mul = true
+					}
 				}
 			}
 		}
 		if !mul {
 			continue
 		}
-		found = true
-		rs.Instances++
-		digits := k.Int64()
-		if be.Op == token.GTR {
-			digits++
-		}
-		lim := new(big.Int).Exp(big.NewInt(10), big.NewInt(digits), nil)
-		lim.Sub(lim, big.NewInt(1))
-		if lim.Cmp(maxU64) > 0 {
-			r.Fail(rs, "readFloat:mantissa-digits", x.W.Pos(be.Pos()), fmt.Sprintf("up to %d digits are accumulated into the uint64 mantissa; 10^%d - 1 does not fit", digits, digits))
-		} else {
-			rs.OK(1)
-			rs.Sample(fmt.Sprintf("readFloat: at most %d mantissa digits accumulate (10^%d-1 <= 2^64-1)", digits, digits))
+		for d := mb; d != nil; d = d.Idom() {
+			dom := d.Idom()
+			if dom == nil {
+				break
+			}
+			iff, ok := dom.Instrs[len(dom.Instrs)-1].(*ssa.If)
+			if !ok {
+				continue
+			}
+			be, ok := iff.Cond.(*ssa.BinOp)
+			if !ok {
+				continue
+			}
+			k, okc := constBig(be.Y)
+			if !okc || !isIntT(be.X.Type()) {
+				continue
+			}
+			onTrue := (dom.Succs[0] == d || dom.Succs[0].Dominates(d)) && len(dom.Succs[0].Preds) == 1
+			onFalse := (dom.Succs[1] == d || dom.Succs[1].Dominates(d)) && len(dom.Succs[1].Preds) == 1
+			digits := int64(-1)
+			switch {
+			case be.Op == token.GEQ && onFalse, be.Op == token.LSS && onTrue:
+				digits = k.Int64() // count < K when accumulating
+			case be.Op == token.GTR && onFalse, be.Op == token.LEQ && onTrue:
+				digits = k.Int64() + 1
+			}
+			if digits < 0 {
+				continue
+			}
+			// the compared value is the counter of accumulated digits: it is incremented where the mantissa grows
+			counted := false
+			for _, cb := range fn.Blocks {
+				if cb != mb && !mb.Dominates(cb) {
+					continue
+				}
+				for _, ins := range cb.Instrs {
+					if a, ok := ins.(*ssa.BinOp); ok && a.Op == token.ADD && a.X == be.X {
+						if one, ok := constBig(a.Y); ok && one.Int64() == 1 {
+							counted = true
+						}
+					}
+				}
+			}
+			if !counted {
+				continue
+			}
+			found = true
+			rs.Instances++
+			lim := new(big.Int).Exp(big.NewInt(10), big.NewInt(digits), nil)
+			lim.Sub(lim, big.NewInt(1))
+			if lim.Cmp(maxU64) > 0 {
+				r.Fail(rs, "readFloat:mantissa-digits", x.W.Pos(be.Pos()), fmt.Sprintf("up to %d digits are accumulated into the uint64 mantissa; 10^%d - 1 does not fit", digits, digits))
+			} else {
+				rs.OK(1)
+				rs.Sample(fmt.Sprintf("readFloat: at most %d mantissa digits accumulate (10^%d-1 <= 2^64-1)", digits, digits))
+			}
+			break
 		}
 	}
 	if !found {
